@@ -396,8 +396,14 @@ func fieldReslice(v ssa.Value, seen map[ssa.Value]bool, depth int) (fromField, c
 		return f, k || x.High != nil
 	case *ssa.UnOp:
 		if x.Op == token.MUL {
-			if _, ok := x.X.(*ssa.FieldAddr); ok {
-				return true, false
+			if fa, ok := x.X.(*ssa.FieldAddr); ok {
+				// the records that hold the log: raft's unstable tail and the storage (not messages or Ready values,
+				// which are built from them)
+				switch namedOf(fa.X.Type()) {
+				case "unstable", "MemoryStorage":
+					return true, false
+				}
+				return false, false
 			}
 		}
 	case *ssa.Phi:
@@ -445,7 +451,7 @@ func fieldReslice(v ssa.Value, seen map[ssa.Value]bool, depth int) (fromField, c
 	return false, false
 }
 
-var rR16u = RuleRef{Name: "R16u", Doc: "log entries that were handed out are never overwritten in place: in package raft no append writes behind an upper-bounded re-slice (s[:k], s[a:b]) of an entry slice kept in a struct field (unstable.entries, MemoryStorage.ents, reached directly or through a helper such as unstable.slice). Ready.Entries and outgoing MsgApp messages alias those backing arrays while the application is still persisting or sending them; a conflicting append that truncates must copy first (append([]pb.Entry{}, kept...)), appending to the whole slice only writes beyond its length and is fine", Run: func(c *C) {
+var rR16u = RuleRef{Name: "R16u", Doc: "log entries that were handed out are never overwritten in place: in package raft no append writes behind an upper-bounded re-slice (s[:k], s[a:b]) of an entry slice kept in a struct field (unstable.entries, MemoryStorage.ents, reached directly or through a helper such as unstable.slice). Ready.Entries and outgoing MsgApp messages alias those backing arrays while the application is still persisting or sending them; a conflicting append that truncates must copy first (append([]pb.Entry{}, kept...)), appending to the whole slice only writes beyond its length and is fine; likewise no element of such a slice is assigned to in place (a compaction that overwrites slot 0 of the stored log instead of building a new one)", Run: func(c *C) {
 	n := 0
 	var bad []string
 	for _, fn := range c.P.allFuncs(raftPkg) {
@@ -469,6 +475,35 @@ var rR16u = RuleRef{Name: "R16u", Doc: "log entries that were handed out are nev
 			}
 		}
 	}
+	// the same for element stores: an entry slot of a stored slice (or of a re-slice of it) is never assigned to
+	nSt := 0
+	for _, fn := range c.P.allFuncs(raftPkg) {
+		for _, b := range fn.Blocks {
+			for _, in := range b.Instrs {
+				st, ok := in.(*ssa.Store)
+				if !ok {
+					continue
+				}
+				addr := st.Addr
+				if fa, ok := addr.(*ssa.FieldAddr); ok {
+					addr = fa.X // s[i].Data = nil
+				}
+				ia, ok := addr.(*ssa.IndexAddr)
+				if !ok {
+					continue
+				}
+				sl, ok := ia.X.Type().Underlying().(*types.Slice)
+				if !ok || namedOf(sl.Elem()) != "Entry" {
+					continue
+				}
+				nSt++
+				if f, _ := fieldReslice(ia.X, map[ssa.Value]bool{}, 0); f {
+					bad = append(bad, c.pos(st.Pos())+": "+fnName(fn)+" assigns to an element of a stored entry slice in place")
+				}
+			}
+		}
+	}
+	c.Count("R16u_entry_element_stores", nSt)
 	c.Add("R16u", "raft", "a truncating append of log entries copies the kept prefix", token.NoPos, len(bad) == 0, strings.Join(uniq(bad), "; "))
 	c.Count("R16u_entry_appends", n)
 	c.Min("R16u_entry_appends", 6)
@@ -1347,3 +1382,262 @@ func (a *arityFlow) at(in ssa.Instruction) (uint16, bool) {
 	m, ok := a.in[in.Block()]
 	return m, ok && m != 0
 }
+
+// ---------- R20c: the per-connection state is one object ----------
+
+var rR20cs = RuleRef{Name: "R20cs", Doc: "the state of a connection (the record of package server that holds the selected database) is one object handed around by pointer: no function of the package takes or returns it by value, no local variable holds a copy of it and no whole-record load copies it. SELECT stores into that record; executed against a copy (the apply loop handing `*st` to a helper per commit batch, a queued command carrying its own snapshot of the state) the selection is lost or forked", Run: func(c *C) {
+	cs := c.P.NamedType("server", "connState")
+	if cs == nil {
+		c.Undecided("R20cs", "anchor server.connState")
+		return
+	}
+	isVal := func(t types.Type) bool { return types.Identical(t, cs) }
+	n := 0
+	var bad []string
+	for _, fn := range c.P.allFuncs("server") {
+		sig := fn.Signature
+		for i := 0; i < sig.Params().Len(); i++ {
+			if isVal(sig.Params().At(i).Type()) {
+				bad = append(bad, c.pos(fn.Pos())+": "+fnName(fn)+" takes the connection state by value")
+			}
+		}
+		for i := 0; i < sig.Results().Len(); i++ {
+			if isVal(sig.Results().At(i).Type()) {
+				bad = append(bad, c.pos(fn.Pos())+": "+fnName(fn)+" returns the connection state by value")
+			}
+		}
+		for _, b := range fn.Blocks {
+			for _, in := range b.Instrs {
+				switch x := in.(type) {
+				case *ssa.UnOp:
+					if x.Op == token.MUL && isVal(x.Type()) {
+						n++
+						bad = append(bad, c.pos(x.Pos())+": "+fnName(fn)+" copies the connection state (whole-record load)")
+					}
+				case *ssa.Alloc:
+					if pt, ok := x.Type().(*types.Pointer); ok && isVal(pt.Elem()) {
+						n++
+						// the one allocation that creates a state is fine when nothing is copied into it as a whole
+						if x.Referrers() != nil {
+							for _, r := range *x.Referrers() {
+								if st, ok := r.(*ssa.Store); ok && st.Addr == ssa.Value(x) {
+									if _, isLoad := st.Val.(*ssa.UnOp); isLoad {
+										bad = append(bad, c.pos(st.Pos())+": "+fnName(fn)+" stores a copy of a connection state into a new record")
+									}
+								}
+							}
+						}
+					}
+				}
+			}
+		}
+	}
+	c.Add("R20cs", "server", "the connection state is never copied", token.NoPos, len(bad) == 0, strings.Join(uniq(bad), "; "))
+	c.Count("R20cs_state_records_seen", n)
+}}
+
+// ---------- R30g: stored strings do not share memory with a package-level table ----------
+
+var rR30g = RuleRef{Name: "R30g", Doc: "a byte slice stored in the keyspace is not (part of) a package-level variable: the value handed to db.Set/SetIf* never derives from a global (a table of preformatted small integers, a shared empty slice with capacity). APPEND and SETRANGE extend a stored string with append(old, ..), which writes behind len(old) into old's backing array when it has room: two keys that hold slices of one shared array overwrite each other", Run: func(c *C) {
+	n := 0
+	for _, fn := range c.P.allFuncs("memdb") {
+		ord := 0
+		for _, b := range fn.Blocks {
+			for _, in := range b.Instrs {
+				call, ok := in.(*ssa.Call)
+				if !ok {
+					continue
+				}
+				a := c.keyspaceAccess(call)
+				if a == nil || a.Map != "db" || !a.Write || len(call.Call.Args) < 3 {
+					continue
+				}
+				val := call.Call.Args[2]
+				if mi, ok := val.(*ssa.MakeInterface); ok {
+					val = mi.X
+				}
+				if _, isSl := val.Type().Underlying().(*types.Slice); !isSl {
+					continue
+				}
+				n++
+				ord++
+				global := ""
+				var walk func(v ssa.Value, depth int, seen map[ssa.Value]bool)
+				walk = func(v ssa.Value, depth int, seen map[ssa.Value]bool) {
+					if v == nil || seen[v] || depth > 4 || global != "" {
+						return
+					}
+					seen[v] = true
+					switch x := v.(type) {
+					case *ssa.Global:
+						global = x.Name()
+					case *ssa.UnOp:
+						walk(x.X, depth, seen)
+					case *ssa.Slice:
+						walk(x.X, depth, seen)
+					case *ssa.IndexAddr:
+						walk(x.X, depth, seen)
+					case *ssa.Index:
+						walk(x.X, depth, seen)
+					case *ssa.Lookup:
+						walk(x.X, depth, seen)
+					case *ssa.FieldAddr:
+						walk(x.X, depth, seen)
+					case *ssa.ChangeType:
+						walk(x.X, depth, seen)
+					case *ssa.Phi:
+						for _, e := range x.Edges {
+							walk(e, depth, seen)
+						}
+					case *ssa.Extract:
+						walk(x.Tuple, depth, seen)
+					case *ssa.Call:
+						if ap, ok := isAppend(x); ok {
+							walk(ap.Call.Args[0], depth, seen) // append(shared, ..) may still write into the shared array
+							return
+						}
+						if cf := callee(x); cf != nil && firstParty(cf) && len(cf.Blocks) > 0 {
+							for _, b2 := range cf.Blocks {
+								if ret, ok := b2.Instrs[len(b2.Instrs)-1].(*ssa.Return); ok {
+									for _, r := range ret.Results {
+										if _, isSl := r.Type().Underlying().(*types.Slice); isSl {
+											walk(r, depth+1, seen)
+										}
+									}
+								}
+							}
+						}
+					}
+				}
+				walk(val, 0, map[ssa.Value]bool{})
+				c.Add("R30g", fnName(fn), fmt.Sprintf("stored byte slice #%d is not part of a package-level variable", ord), call.Pos(), global == "", "the value derives from the package-level variable "+global+": keys that store it share one backing array")
+			}
+		}
+	}
+	c.Count("R30g_stored_slices", n)
+	c.Min("R30g_stored_slices", 10)
+}}
+
+// ---------- R15a: the atomic multi-key commands take their stripes once ----------
+
+var rR15a = RuleRef{Name: "R15a", Doc: "MSET, RENAME, LMOVE and SMOVE are atomic because one LockMulti covers all their keys for the whole update (R15): in these executors and the helpers they call, no multi-key acquisition sits in a loop. A bulk update applied in batches, each batch under its own LockMulti, lets other clients in between the batches", Run: func(c *C) {
+	multi := map[*ssa.Function]bool{}
+	for _, n := range []string{"Locks.LockMulti", "Locks.RLockMulti"} {
+		if f := c.P.Func("memdb", n); f != nil {
+			multi[f] = true
+		}
+	}
+	if len(multi) == 0 {
+		c.Undecided("R15a", "anchor Locks.LockMulti")
+		return
+	}
+	n := 0
+	for _, name := range []string{"mset", "rename", "lmove", "smove"} {
+		ex := c.Facts.Executors[name]
+		if ex == nil {
+			continue
+		}
+		var bad []string
+		acquires := 0
+		// inLoop[f]: f is called (transitively from the executor) from inside a loop
+		type item struct {
+			f      *ssa.Function
+			inLoop bool
+		}
+		seen := map[*ssa.Function]bool{}
+		work := []item{{ex, false}}
+		for len(work) > 0 {
+			it := work[0]
+			work = work[1:]
+			if seen[it.f] && !it.inLoop {
+				continue
+			}
+			seen[it.f] = true
+			loops := naturalLoops(it.f)
+			inLoopBlock := func(b *ssa.BasicBlock) bool {
+				for _, body := range loops {
+					if body[b] {
+						return true
+					}
+				}
+				return false
+			}
+			for _, b := range it.f.Blocks {
+				for _, in := range b.Instrs {
+					ci, ok := in.(ssa.CallInstruction)
+					if !ok {
+						continue
+					}
+					if _, isDefer := in.(*ssa.Defer); isDefer {
+						continue
+					}
+					cf := callee(ci)
+					if cf == nil {
+						continue
+					}
+					looped := it.inLoop || inLoopBlock(b)
+					if multi[cf] {
+						acquires++
+						if looped {
+							bad = append(bad, c.pos(in.Pos())+": "+cf.Name()+" is reached inside a loop (in "+fnName(it.f)+")")
+						}
+						continue
+					}
+					if firstParty(cf) && pkgRel(cf) == "memdb" && len(cf.Blocks) > 0 && c.Facts.ExecNames[cf] == nil && len(seen) < 40 {
+						if !seen[cf] || looped {
+							work = append(work, item{cf, looped})
+						}
+					}
+				}
+			}
+		}
+		n++
+		c.Add("R15a", fnName(ex), strings.ToUpper(name)+" acquires its stripes once, outside every loop", ex.Pos(), len(bad) == 0 && acquires >= 1, strings.Join(uniq(bad), "; ")+fmt.Sprintf(" (multi-key acquisitions found: %d)", acquires))
+	}
+	c.Count("R15a_atomic_commands", n)
+	c.Min("R15a_atomic_commands", 3)
+}}
+
+// ---------- R17c: the matcher keeps no state between pattern elements ----------
+
+var rR17c = RuleRef{Name: "R17c", Doc: "every pattern element is matched on its own: the main loop of the glob matcher carries only positions from one iteration to the next (integer loop variables); a boolean that survives an iteration -- set flags hoisted out of the '[' arm, say -- makes the second set of a pattern start with the first one's negation, match and closing state", Run: func(c *C) {
+	pm := c.P.Func("util", "PattenMatch")
+	if pm == nil {
+		c.Undecided("R17c", "anchor util.PattenMatch")
+		return
+	}
+	n := 0
+	var bad []string
+	for _, fn := range append([]*ssa.Function{pm}, helperScope(pm, 2)...) {
+		if fn.Pkg != pm.Pkg {
+			continue
+		}
+		loops := naturalLoops(fn)
+		for head, body := range loops {
+			// outermost loops only: a header that lies in no other loop's body
+			inner := false
+			for h2, b2 := range loops {
+				if h2 != head && b2[head] {
+					inner = true
+				}
+			}
+			if inner {
+				continue
+			}
+			_ = body
+			for _, in := range head.Instrs {
+				phi, ok := in.(*ssa.Phi)
+				if !ok {
+					break
+				}
+				n++
+				if isBoolType(phi.Type()) {
+					bad = append(bad, c.pos(head.Instrs[len(head.Instrs)-1].Pos())+": "+fnName(fn)+" carries the boolean "+phi.Comment+" across iterations of its element loop")
+				}
+			}
+		}
+	}
+	c.Add("R17c", fnName(pm), "the element loop of the matcher carries positions only", pm.Pos(), len(bad) == 0, strings.Join(uniq(bad), "; "))
+	c.Count("R17c_loop_variables", n)
+	c.Min("R17c_loop_variables", 2)
+}}
